@@ -80,6 +80,7 @@ pub fn history(seed: u64, focus: &str, faults: bool, thorough: bool) -> Generate
         all.push(Query::Analyze);
         all.push(Query::Graph);
         all.push(Query::Execute);
+        all.push(Query::ExecuteHeld);
         all.retain(|q| matches!(q, Query::Analyze) || rng.chance(7, 10));
         all
     };
@@ -131,6 +132,36 @@ pub fn history(seed: u64, focus: &str, faults: bool, thorough: bool) -> Generate
                 | 6 => Op::AskSnapshot { root: *rng.pick(&roots), query: rng.pick(&queries).clone() },
                 | 7 if slot != SLOT_INPUT => Op::FaultDirectory { slot },
                 | 8 if slot != SLOT_INPUT => Op::FaultGarbage { slot },
+                | 9 if slot != SLOT_INPUT && rng.chance(1, 3) => {
+                    // a same-size rewrite that keeps the modification time
+                    match &model.slots[slot].disk {
+                        // only plain `NN` / `ret NN` literals: changing a digit there changes the value
+                        // and nothing else (a digit of `i64` would change the class of the content)
+                        | crate::world::Disk::File(old)
+                            if old.imports.is_empty()
+                                && (old.name.starts_with("int") || old.name.starts_with("ret"))
+                                && old.template.trim_start_matches("ret ").chars().all(|c| c.is_ascii_digit()) =>
+                        {
+                            let mut text: Vec<char> = old.template.chars().collect();
+                            let digits: Vec<usize> =
+                                text.iter().enumerate().filter(|(_, c)| c.is_ascii_digit()).map(|(i, _)| i).collect();
+                            if digits.is_empty() {
+                                Op::Refresh { slot }
+                            } else {
+                                let at = *rng.pick(&digits);
+                                let old_digit = text[at].to_digit(10).unwrap();
+                                let new_digit = (old_digit + 1 + rng.below(8) as u32) % 10;
+                                text[at] = char::from_digit(if new_digit == 0 && at == digits[0] { 7 } else { new_digit }, 10).unwrap();
+                                let template: String = text.into_iter().collect();
+                                let mut content = old.clone();
+                                content.name = format!("{}~", old.name.trim_end_matches('~'));
+                                content.template = template;
+                                Op::StampedWriteRefresh { slot, content }
+                            }
+                        }
+                        | _ => Op::Refresh { slot },
+                    }
+                }
                 | 9 if slot != SLOT_INPUT => Op::SilentWrite { slot, content: content::generate(&mut rng, slot, &palette) },
                 | 10 if slot != SLOT_INPUT => Op::SilentDelete { slot },
                 | 12 => {
@@ -180,7 +211,12 @@ pub fn history(seed: u64, focus: &str, faults: bool, thorough: bool) -> Generate
                 }
                 | Op::Evict => Some(Op::Ask {
                     root: *rng.pick(&roots),
-                    query: rng.pick(&[Query::Execute, Query::MaterializeArena, Query::Facts, Query::CheckedProgram]).clone(),
+                    query: rng
+                        .pick(&[
+                            Query::Execute, Query::MaterializeArena, Query::Facts, Query::CheckedProgram, Query::ExecuteHeld,
+                            Query::MaterializeArenaHeld, Query::CheckedProgramHeld,
+                        ])
+                        .clone(),
                 }),
                 | Op::SetOverlay { slot, .. } | Op::WriteRefresh { slot, .. } | Op::DeleteRefresh { slot } | Op::ClearOverlay { slot } => {
                     // ask a root that can see the change
@@ -247,7 +283,9 @@ pub fn enumerated(files: usize, mask: u64, seed: u64) -> Generated {
         let mut targets = Vec::new();
         for (j, to) in set.iter().enumerate() {
             if mask >> (i * set.len() + j) & 1 == 1 {
-                let spelling = rng.pick(&[Spelling::Plain, Spelling::Dot, Spelling::DotDot, Spelling::Absolute]).clone();
+                let spelling = rng
+                    .pick(&[Spelling::Plain, Spelling::Dot, Spelling::DotDot, Spelling::Absolute, Spelling::AbsoluteDotDot])
+                    .clone();
                 targets.push((*to, spelling));
             }
         }
